@@ -179,6 +179,19 @@ pub fn run(args: &[String]) -> i32 {
                     junk.push((format!("(no malformed frame: behind a message of {big} bytes in the same write)"), Vec::new()));
                 }
             }
+            // ... and frames whose bytes arrive in pieces with a pause inside the 4-byte length prefix (after 1, 2, 3 bytes), after it, and inside the body
+            for cut in [1usize, 2, 3, 4, 5, 9, 1, 2, 3] {
+                use tokio::io::AsyncWriteExt;
+                sent += 1;
+                let body = pass_through(&to_sink, Some(&OwnedTerm::Tuple(vec![a("s"), OwnedTerm::Integer(sent as i64)])));
+                let mut f = (body.len() as u32).to_be_bytes().to_vec();
+                f.extend_from_slice(&body);
+                wrote_all &= peer.wr.write_all(&f[..cut]).await.is_ok() && peer.wr.flush().await.is_ok();
+                tokio::time::sleep(Duration::from_millis(30)).await;
+                wrote_all &= peer.wr.write_all(&f[cut..]).await.is_ok() && peer.wr.flush().await.is_ok();
+                tokio::time::sleep(Duration::from_millis(5)).await;
+                junk.push((format!("(no malformed frame: a message whose bytes arrive in two pieces, the first of {cut} bytes)"), Vec::new()));
+            }
             let t0 = Instant::now();
             let count = |log: &Arc<Mutex<Vec<Value>>>| log.lock().unwrap().len();
             while count(&log) < sent && t0.elapsed() < Duration::from_secs(15) && node.connections().contains_key("peer@127.0.0.1") {
